@@ -376,6 +376,9 @@ class Response:
             headerlist.append((text_(header_name, "latin-1"), text_(value, "latin-1")))
         r = cls(status=status, headerlist=headerlist, app_iter=())
         body = fp.read(r.content_length or 0)
+        # no body has been set so far: setting it below must not discard a
+        # Content-MD5 header that was read from the file
+        r._app_iter = None
 
         if is_text:
             r.text = body
